@@ -45,9 +45,14 @@ STYLES = {
 KINDS = {"del": DelegatesTo, "proto": PrototypedFrom}
 
 
-def build_hop1(kind, style, class_prefix="d_"):
+def build_hop1(kind, style, class_prefix="d_", default_delegate=False):
     name, prefix, tf = STYLES[style]
-    ns = {"__prefix__": class_prefix, "d": Instance(HasTraits), name: KINDS[kind]("d", prefix=prefix)}
+    # (default_delegate: the delegate is never assigned - it is the trait's own default object)
+    ns = {"__prefix__": class_prefix, "d": Instance(D, ()) if default_delegate else Instance(HasTraits),
+          name: KINDS[kind]("d", prefix=prefix)}
+    if kind == "proto":
+        # a SECOND deferring attribute, declared later, for the same delegate and the same target
+        ns["alias"] = PrototypedFrom("d", prefix=tf(class_prefix))
     ns["__repr__"] = lambda self: "Q#%s" % self.__dict__.get("_n", "?")
     return type("Q", (HasTraits,), ns), name, tf(class_prefix)
 
@@ -80,6 +85,8 @@ OP = st.one_of(
     st.tuples(st.just("swap"), st.integers(0, 2)),
     st.tuples(st.just("swap_mid"), st.integers(0, 1)),
     st.tuples(st.just("del_local")), st.tuples(st.just("del_local_mid")),
+    # the second deferring attribute of the same object (PrototypedFrom classes only): local value set / dropped
+    st.tuples(st.just("alias_set"), st.integers(30, 32)), st.tuples(st.just("alias_del")),
 ).map(list)
 
 
@@ -91,6 +98,7 @@ def strategy(tier):
         # second hop: same deferral kind as the first (mixed-kind chains: the statement does not say where a write lands)
         "chain": st.sampled_from([None, None, "same", "explicit"]),
         "ops": st.lists(OP, min_size=1, max_size=20),
+        "default_delegate": st.sampled_from([False, False, True]),
     })
 
 
@@ -103,11 +111,16 @@ def run(case, ctx):
         dq = Decoy(d=D())
         dq.on_trait_change(lambda: None, dname)
         setattr(dq.d, dtarget, 9)
-    Q, name1, target = build_hop1(kind1, style1, case.get("class_prefix", "d_"))
+    Q, name1, target = build_hop1(kind1, style1, case.get("class_prefix", "d_"), bool(case.get("default_delegate")))
     ds = [D(), D(), D()]
+    if case.get("default_delegate"):
+        qs = [Q(), Q(d=ds[1])]
+        ds[0] = qs[0].d                 # the first delegate IS the default object of the trait (materialised by this read)
+        ctx.label("default-delegate")
+    else:
+        qs = [Q(d=ds[0]), Q(d=ds[1])]
     for i, d in enumerate(ds):
         d.__dict__["_n"] = i
-    qs = [Q(d=ds[0]), Q(d=ds[1])]
     for i, q in enumerate(qs):
         q.__dict__["_n"] = i
     chain = [kind1, case["chain"]] if case["chain"] else None
@@ -160,6 +173,22 @@ def run(case, ctx):
         k = op[0]
         before = snap()
         what = "kind1=%s style1=%s chain=%s op=%r" % (kind1, style1, chain, op)
+        if k in ("alias_set", "alias_del"):
+            if kind1 != "proto":
+                continue
+            q0 = qs[0]
+            try:
+                if k == "alias_set":
+                    q0.alias = op[1]
+                elif "alias" in q0.__dict__:
+                    del q0.alias
+            except Exception as e:
+                ctx.fail("write/raised", "%s raised %r" % (what, e))
+            interesting = True
+            ctx.label("second-deferring-attribute")
+            if log:
+                ctx.fail("notify/unexpected", "%s (another attribute of the same object) notified the handlers of %s: %r" % (what, fname, log))
+            continue
         if k == "set_via_current":
             op = ["set_via", read_front()]
             k = "set_via"
